@@ -198,6 +198,10 @@ def units(tier, seed):
         if fname in ('arcsin', 'arccos', 'arcsinh', 'arccosh') and tier == 'quick':
             n = 4
         add('%s/n<=%d' % (fname, n), 'h_chain', fname=fname, nmax=n)
+    # orders whose integer factors (n!, double factorials) exceed the int64 range; only functions whose
+    # tables are exact python integers (beyond 2^53 the float tables of the others are rounded)
+    for fname in ('reciprocal', 'log', 'exp', 'negative', 'sin'):
+        add('%s/n<=23' % fname, 'h_chain', fname=fname, nmax=23)
     for fname in ('exp', 'log', 'sqrt', 'sin', 'erf', 'arctan', 'reciprocal'):
         add('%s/array-arg/n<=3' % fname, 'h_chain', fname=fname, nmax=3, array=True)
     for fname in DOMAINS:
